@@ -557,6 +557,14 @@ func genEPUB(c *fw.Ctx, idx int, o genOpts) ([]byte, *pkgModel) {
 				f.add("decoy-at-root-relative-href")
 			}
 		}
+		if lr := c.Rand("pkg", idx, "linear", i); lr.Intn(5) == 0 {
+			// an auxiliary content document (linear="no"): out of the default reading
+			// flow for a reading system, but at this place of the spine all the same
+			ch.Linear = "no"
+			f.add("spine-item-linear=no")
+		} else if lr.Intn(6) == 0 {
+			ch.Linear = "yes"
+		}
 		book.Spine = append(book.Spine, ch)
 		m.Parts = append(m.Parts, p)
 	}
